@@ -28,9 +28,14 @@ def _mk_set(name):
     return fset
 
 
-def _mk_derived(terms):
+def _mk_derived(terms, log_above=None):
     def fget(self):
-        return sum(self._values[t] for t in terms)
+        v = sum(self._values[t] for t in terms)
+        if log_above is not None:
+            # a derived quantity that does not exist everywhere (like the
+            # log of a difference): NaN where it is undefined
+            return math.log10(v - log_above) if v > log_above else float('nan')
+        return v
     return fget
 
 
@@ -51,7 +56,8 @@ class ToyModel(ForwardModel):
                                     p['mode'], p['fit'], list(p['bounds']))
         for d in derived:
             self.add_derived_param(d['name'], '$%s$' % d['name'],
-                                   _mk_derived(d['terms']), d['compute'])
+                                   _mk_derived(d['terms'], d.get('log_above')),
+                                   d['compute'])
         self._x = np.linspace(1.0, 2.0, ngrid)
         self.n_model_calls = 0
 
@@ -95,7 +101,8 @@ class ToyObs(BaseSpectrum):
                                     p['mode'], p['fit'], list(p['bounds']))
         for d in derived:
             self.add_derived_param(d['name'], '$%s$' % d['name'],
-                                   _mk_derived(d['terms']), d['compute'])
+                                   _mk_derived(d['terms'], d.get('log_above')),
+                                   d['compute'])
         self._x = np.asarray(x, dtype=float)
         self._y = np.asarray(y, dtype=float)
         self._yerr = np.asarray(yerr, dtype=float)
